@@ -125,6 +125,8 @@ Definition update (s : mst) (ts : list tok) : option (mst * list obs) :=
         match dget (t_pre a) (dict s) with
         | Some id => addr_update s id ts
         | None =>
+            (* elif params[1] != '<error>': an error mapping for an unknown name changes nothing *)
+            if beqb (t_pre b) w_ERROR then Some (s, []) else
             let id := nid s in
             let s1 := {| dict := dset (t_pre b) id (dset (t_pre a) id (dict s));
                          heap := hset id {| e_name := []; e_ip := []; e_exp := None |} (heap s);
